@@ -271,6 +271,9 @@ func afterBlockGov(s *scn, h uint64, txs []*pb.BxhTransaction, metas []*txMeta, 
 	for _, id := range gm.open {
 		if pv, _ := gm.proposal(id); pv != nil && pv.Status != "proposed" && pv.Status != "pause" {
 			touched[pv.ObjId] = true
+			if c, ok := s.ruleProposalChain[id]; ok {
+				touched[c] = true
+			}
 		}
 	}
 	// ---- C16 (ii) + (iii): status changes only with cause; forbidden is absorbing
